@@ -199,7 +199,7 @@ class Capture:
 
 # ============================================================================================ generation
 
-TEXTS = st.text(alphabet="abxy ", min_size=0, max_size=7)
+TEXTS = st.text(alphabet="abxy \n", min_size=0, max_size=7)  # "\\n": one text canvas spanning several rows
 VALIGN = st.sampled_from(["top", "middle", "bottom"])
 HALIGN = st.sampled_from(["left", "center", "right"])
 REL = st.sampled_from([0, 25, 50, 75, 100])
@@ -395,6 +395,23 @@ def histories(draw, any_top=False, explicit_clear=False, lifecycle=False):
     op = op_strategy(any_top, explicit_clear, lifecycle)
     steps = draw(st.lists(st.lists(op, min_size=1, max_size=3), min_size=1, max_size=25 if long else 12))
     first = draw(box_spec(2, True)) if not (any_top and draw(st.integers(0, 3)) == 0) else draw(img_leaf())
+    if draw(st.integers(0, 3)) == 0:
+        # directed family "panes": a column of short rows beside a multi-row widget at the right edge, and below
+        # them an image in a fixed-width column that starts at the same column; the first steps move that column
+        # horizontally only (pane separator dragged) - canvases that continue from an earlier shard on the right
+        a, iw = draw(st.integers(2, 6)), draw(st.integers(2, 4))
+        rows_left = [[["pack"], {"t": "text", "s": draw(TEXTS)}] for _ in range(draw(st.integers(3, 6)))]
+        left = ({"t": "listbox", "items": rows_left, "focus": 0, "valign": "top"} if draw(st.booleans())
+                else {"t": "filler", "valign": "top", "child": {"t": "pile", "k": "flow", "items": rows_left}})
+        title = {"t": "text", "s": "\n".join(draw(st.lists(TEXTS, min_size=2, max_size=4)))}  # ONE canvas spanning several rows
+        pool = [draw(widget_spec(("kitty", "kitty", "iterm2")))] + pool[:3]  # widget 0: a style with deletable placements
+        inner = {"t": "cols", "k": "box", "div": 0, "items": [[["given", iw], {"t": "img", "w": 0}], [["weight", 1], {"t": "solid", "c": "."}]]}
+        right = {"t": "pile", "k": "box", "items": [[["pack"], title], [["weight", 1], inner]]}
+        first = {"t": "cols", "k": "box", "div": 0, "items": [[["given", a], left], [["weight", 1], right]]}
+        cols, rows = max(cols, a + iw + 8), max(rows, 6)
+        # the root columns are container 0 in walk order: item 0 is the left pane
+        moves = [[{"op": "resize", "c": 0, "at": 0, "sz": ["given", draw(st.integers(1, 9))]}] for _ in range(draw(st.integers(2, 4)))]
+        steps = moves + steps
     return {
         "ident": ident, "force": force, "cell": draw(st.sampled_from([[1, 2], [1, 2], [2, 4], [3, 5], [9, 18]])),
         "size": [cols, rows], "pool": pool, "layout": first, "steps": steps,
